@@ -1,8 +1,8 @@
 #!/bin/bash
 # ./run_all.sh [quick|thorough] [IDs…] — runs the registered checks one after another and prints one line each
 TIER="${1:-quick}"; shift
-IDS="${*:-$(python3 -c "import json;print(' '.join(c['property_id'] for c in json.load(open('/verif/MANIFEST.json'))['checks']))")}"
-cd /verif || exit 2
+cd "$(dirname "$0")" || exit 2
+IDS="${*:-$(python3 -c "import json;print(' '.join(c['property_id'] for c in json.load(open('MANIFEST.json'))['checks']))")}"
 fail=0
 for id in $IDS; do
   t0=$(date +%s)
